@@ -6,6 +6,8 @@ from . import rules_slab as RS
 from . import rules_qs as RQ
 from . import rules_radix as RR
 from . import rules_own as RO
+from . import rules_link as RL
+from . import rules_hash as RH
 
 
 def need_unit(ctx, name, w1=False, **kw):
@@ -118,6 +120,8 @@ def C13(ctx):
     RG.check_swap(ctx, u, SEQ_OWNERS)
     RO.check_relocation(ctx, u, ["frg::vector", "frg::small_vector"])
     RO.check_forward_once(ctx, u, ["frg::vector", "frg::small_vector"])
+    RL.check_intrusive_list(ctx, u)
+    RO.check_small_vector_selection(ctx, u)
     return ("Structural clauses of C13: emptiness polarity, front/back subscripts, swap completeness, relocation ranges "
             "in growth, forwarded arguments consumed once, intrusive list link protocol. Not decided: equality with a "
             "reference sequence after arbitrary histories.")
@@ -143,7 +147,24 @@ def C16(ctx):
     RO.check_destroy_before_free(ctx, us, SEQ_OWNERS)
     RO.check_destroy_before_free(ctx, uo, ["frg::unique_ptr"], rule="O4.destroy-before-free")
     RO.check_relocation(ctx, us, ["frg::vector", "frg::small_vector"])
+    ctx.rule("O7.no-use-after-release", "a pointer is not dereferenced or passed on after the block it designates was "
+             "destroyed / returned to the allocator, until it is reassigned", 8)
+    for u in (us, uh, ust, uo, ur):
+        RO.check_no_use_after_release(ctx, u, [f for f in u.functions if f.uq.startswith("frg::")])
     return ("Structural clauses of C16. Not decided: exactly-once as a count over arbitrary histories.")
 
 
-PROPS = {"C13": C13, "C16": C16, "C10": C10, "C09": C09, "C11": C11, "C12": C12, "C05": C05, "C04": C04}
+def C14(ctx):
+    u = need_unit(ctx, "hash_map")
+    RH.check_C14(ctx, u)
+    ctx.rule("O7.no-use-after-release", "a chain node is not accessed after frg::destruct released it (remove() moves the "
+             "value out first; the destructor and rehash read `next` first)", 2)
+    RO.check_no_use_after_release(ctx, u, [f for f in u.functions if f.owner_cls == "frg::hash_map"])
+    RO.check_empty(ctx, u, ["frg::hash_map"])
+    return ("Structural clauses of C14: no bucket index survives a capacity change, indices are paired with the table they "
+            "were reduced for, every index is hasher(key concerned) mod capacity, construct/++_size and destruct/--_size "
+            "balance on every path, growth precedes the bucket computation in insert(), no use of a node after its release. "
+            "Not decided: agreement with a reference map over histories.")
+
+
+PROPS = {"C14": C14, "C13": C13, "C16": C16, "C10": C10, "C09": C09, "C11": C11, "C12": C12, "C05": C05, "C04": C04}
